@@ -145,6 +145,7 @@ func loadProgram(repo, goarch string) (*Program, error) {
 	p.resolveTypeRenames()
 	p.resolveMemberRenames()
 	p.resolveRenames()
+	p.resolveFieldGroups()
 	p.resolveFieldRenames()
 	p.resolveParamRenames()
 	p.computeOwners()
@@ -177,6 +178,85 @@ func (p *Program) structFields(visit func(key string, typ string, v *types.Var, 
 			}
 		}
 	}
+}
+
+// groupOwner: struct types that only group fields of a reference struct (see resolveFieldGroups) answer to the name of
+// that struct wherever a "Type.field" name is formed.
+var groupOwner = map[types.Type]string{}
+
+// resolveFieldGroups: fields of a reference struct T that are gone, and a new field g of T whose type is a struct S that is
+// not part of the reference tree and holds fields of those names and types, are the same fields grouped into a sub-struct
+// (embedded or named). g is transparent: T.g.f is called T.f in every engine, S answers to T's name.
+func (p *Program) resolveFieldGroups() {
+	groupOwner = map[types.Type]string{}
+	present := map[string]bool{}
+	type fr struct {
+		key string
+		v   *types.Var
+	}
+	var fresh []fr
+	p.structFields(func(key, typ string, v *types.Var, idx int) {
+		present[key] = true
+		if _, ok := knownFields[key]; !ok {
+			fresh = append(fresh, fr{key, v})
+		}
+	})
+	for _, f := range fresh {
+		owner := f.key[:strings.LastIndex(f.key, ".")]
+		hasKnown := false
+		for k := range knownFields {
+			if strings.HasPrefix(k, owner+".") {
+				hasKnown = true
+				break
+			}
+		}
+		if !hasKnown {
+			continue
+		}
+		st, ok := f.v.Type().Underlying().(*types.Struct)
+		if !ok {
+			continue
+		}
+		if n, ok := f.v.Type().(*types.Named); ok {
+			if n.Obj().Pkg() == nil || p.Pkgs[n.Obj().Pkg().Path()] == nil {
+				continue // a type of another module or the standard library is not a grouping
+			}
+			name := n.Obj().Name()
+			if n.Obj().Pkg().Path() != modPath {
+				name = n.Obj().Pkg().Name() + "." + name
+			}
+			if _, known := knownTypes[name]; known {
+				continue
+			}
+		}
+		matched, total := 0, st.NumFields()
+		for i := 0; i < st.NumFields(); i++ {
+			old, ok := knownFields[owner+"."+st.Field(i).Name()]
+			if ok && !present[owner+"."+st.Field(i).Name()] && old[strings.Index(old, "|")+1:] == refTypeString(st.Field(i).Type()) {
+				matched++
+			}
+		}
+		if matched == 0 || matched != total {
+			continue
+		}
+		fieldAlias[f.v] = ""
+		short := owner
+		if i := strings.LastIndex(short, "."); i >= 0 {
+			short = short[i+1:]
+		}
+		groupOwner[f.v.Type()] = short
+		groupOwner[st] = short
+		p.RenameNotes = append(p.RenameNotes, fmt.Sprintf("fields of %s were grouped into %s; they are analysed under their reference names", owner, f.key))
+	}
+	sort.Strings(p.RenameNotes)
+}
+
+// joinField appends a field name to an access path; a transparent grouping field (empty name) adds nothing.
+func joinField(k, f string) string {
+	if f == "" {
+		return k
+	}
+	return k + "." + f
 }
 
 // resolveFieldRenames: a field of the reference tree that is gone and a new field of the same struct with the
@@ -577,8 +657,14 @@ func typeShort(t types.Type) string {
 		}
 		break
 	}
+	if o, ok := groupOwner[t]; ok {
+		return o
+	}
 	if n, ok := t.(*types.Named); ok {
 		return typeNameOf(n.Obj())
+	}
+	if o, ok := groupOwner[t.Underlying()]; ok {
+		return o
 	}
 	return t.String()
 }
@@ -854,7 +940,25 @@ func (p *Program) FuncOpt(name string) *ssa.Function {
 			found = f
 		}
 	}
-	return found
+	if found != nil {
+		return found
+	}
+	// the closures of a function that was inlined into its only caller are now closures of that caller; when the caller had
+	// none of its own in the reference tree they keep their order
+	if i := strings.Index(name, "$"); i > 0 {
+		base, rest := name[:i], name[i:]
+		if pf := p.FuncOpt(base); pf != nil && p.absorbed[base] == pf {
+			host := p.rawName(pf)
+			if !knownFuncs[host+"$1"] {
+				for _, f := range p.Funcs {
+					if f.Parent() != nil && p.rawName(f) == host+rest {
+						return f
+					}
+				}
+			}
+		}
+	}
+	return nil
 }
 
 // NamedType resolves a package-level named type of the main package (or "pkg.Type").
@@ -918,12 +1022,27 @@ func (p *Program) FieldOpt(name string) *types.Var {
 	if !ok {
 		return nil
 	}
-	for k := 0; k < st.NumFields(); k++ {
-		if fieldName(st.Field(k)) == fn {
-			return st.Field(k)
+	var find func(st *types.Struct, depth int) *types.Var
+	find = func(st *types.Struct, depth int) *types.Var {
+		for k := 0; k < st.NumFields(); k++ {
+			if fieldName(st.Field(k)) == fn {
+				return st.Field(k)
+			}
 		}
+		if depth < 3 {
+			for k := 0; k < st.NumFields(); k++ {
+				if fieldName(st.Field(k)) == "" {
+					if sub, ok := st.Field(k).Type().Underlying().(*types.Struct); ok {
+						if v := find(sub, depth+1); v != nil {
+							return v
+						}
+					}
+				}
+			}
+		}
+		return nil
 	}
-	return nil
+	return find(st, 0)
 }
 
 // Global resolves a package-level variable of the main package.
